@@ -224,14 +224,17 @@ def rnd_creq(r):
     return cs
 
 
-def versions_near(r, rng_ast, n):
-    """versions around the numbers that occur in the range"""
-    nums = set()
+def operand_tuples(rng_ast):
+    """(M, m, p, pre) of every operand of a range / requirement (missing components as 0)"""
+    out = []
 
     def walk(p):
-        for x in p[1:4]:
-            if isinstance(x, int):
-                nums.add(x)
+        if p[0] == 'p1':
+            out.append((p[1], 0, 0, ''))
+        elif p[0] == 'p2':
+            out.append((p[1], p[2], 0, ''))
+        elif p[0] == 'p3':
+            out.append((p[1], p[2], p[3], p[4]))
     for a in rng_ast:
         if isinstance(a, tuple) and a and a[0] == 'hyphen':
             walk(a[1]); walk(a[2])
@@ -240,9 +243,35 @@ def versions_near(r, rng_ast, n):
                 walk(c[3])
         else:
             walk(a[3])
-    pool = sorted({max(0, x + d) for x in nums for d in (-1, 0, 1)} | {0, 1}) or [0, 1, 2]
-    pool = [x for x in pool if x < 2 ** 64]
+    return out
+
+
+def versions_near(r, rng_ast, n):
+    """versions on and next to every bound the range can have: the operand tuple and its
+    six axis neighbours, each as a release and with prereleases; then random fill"""
     out = []
+    seen = set()
+
+    def add(v):
+        if v not in seen and all(0 <= x < 2 ** 64 for x in v[:3]):
+            seen.add(v)
+            out.append(v)
+    tuples = operand_tuples(rng_ast)
+    r.shuffle(tuples)
+    for (M, m, p, pre) in tuples[:3]:
+        for (a, b, c) in [(0, 0, 0), (1, 0, 0), (-1, 0, 0), (0, 1, 0), (0, -1, 0), (0, 0, 1), (0, 0, -1), (1, -m, -p), (0, 1, -p)]:
+            t = (M + a, m + b, p + c)
+            if min(t) < 0:
+                continue
+            add(t + ('', ''))
+            add(t + (r.choice(['alpha', '0', 'rc.1', 'beta.2']), ''))
+        if pre:
+            add((M, m, p, pre, ''))
+            add((M, m, p, pre + '.1', ''))
+            add((M, m, p, 'a', ''))
+    nums = sorted({x for t in tuples for x in t[:3]} | {0, 1})
+    pool = sorted({max(0, x + d) for x in nums for d in (-1, 0, 1)})
+    pool = [x for x in pool if x < 2 ** 64]
     for _ in range(n):
-        out.append((r.choice(pool), r.choice(pool), r.choice(pool), rnd_pre(r) if r.random() < 0.35 else '', rnd_build(r, 0.03)))
+        add((r.choice(pool), r.choice(pool), r.choice(pool), rnd_pre(r) if r.random() < 0.35 else '', rnd_build(r, 0.03)))
     return out
